@@ -1,7 +1,8 @@
 import ScVerif.Base.Line
 import ScVerif.C20.Parent
+import ScVerif.C20.ParentConc
 import ScVerif.C20.Esc
-/-! Driver ops of the Parent model: `par.union`, `par.remove`, `par.seq`. -/
+/-! Driver ops of the Parent model: `par.union`, `par.remove`, `par.seq`, `par.conc`. -/
 namespace ScVerif.C20.Parent
 open ScVerif.Line
 
@@ -34,6 +35,95 @@ def runSeq (ops : List Op) : String :=
     (s', (ret ++ "#" ++ showState s') :: acc.2)) ([], [])
   ";".intercalate outs.reverse
 
+
+/-! ## `par.conc`: a schedule of the harness' thread steps on the interleaving model
+
+The harness parks a thread after the read (`r`, yield point `gau.afterRead`) and before the lock (`l`,
+`gau.beforeLock`), and between calls.  One harness step is one atomic step of the model, except that the real
+code has no park point (a) between a read that refuses the call (`NotFound`, `AlreadyExists` are decided
+by the get function) and the call's return, and (b) between a refused commit of a retrying call and its next
+read: the model's two steps are taken together there (the first of the two changes nothing and reads
+nothing that is used later, so no interleaving is lost). -/
+
+structure Obs where
+  rets : List String := []      -- finished calls, most recent first
+  traces : List String := []
+  trace : String := ""          -- park points of the current call
+
+def encRec : Rec → String
+  | none => "~"
+  | some ts => encList ts
+
+def parseCOp? (tok : String) : Option COp :=
+  match tok.splitOn ":" with
+  | ["addchild", ts] => some (.addChild (decList ts))
+  | ["add", ts] => some (.addTrait (decList ts))
+  | ["rm", ts] => some (.removeTrait (decList ts))
+  | _ => none
+
+/-- what the model method hands its caller -/
+def showRet (op : Option COp) (old : Rec) : Option (Gau.Res Rec CErr) → String
+  | some (.ok v) => match op with
+    | some (.addTrait _) => (if old.isNone then "created=" else "existing=") ++ encRec v
+    | some (.removeTrait _) => "ok=" ++ encRec v
+    | _ => "ok"
+  | some (.err _) => match op with
+    | some (.removeTrait _) => "nil"
+    | _ => "ok"
+  | some .aborted => match op with
+    | some (.addChild _) => "ok"          -- AddChild ignores every error
+    | _ => "panic"                        -- only the legacy calls get here
+  | none => "?"
+
+def hstepAux (prog : List COp) : Nat → Gau.Cfg Rec CErr → Obs → Nat → Gau.Cfg Rec CErr × Obs
+  | 0, c, ob, _ => (c, ob)
+  | fuel + 1, c, ob, i =>
+    match c.threads[i]? with
+    | none => (c, ob)
+    | some th =>
+      if th.cur.isNone && th.todo.isEmpty then (c, ob) else
+      let c' := c.step (.step i)
+      match c'.threads[i]? with
+      | none => (c', ob)
+      | some th' =>
+        if th'.results.length > th.results.length then
+          let old : Rec := match th.cur with
+            | some (_, .ready o _) => o
+            | _ => none
+          let ret := showRet prog[th.results.length]? old th'.results.head?
+          (c', { rets := ret :: ob.rets, traces := ob.trace :: ob.traces, trace := "" })
+        else match th'.cur with
+          | some (cl, .haveOld o) =>
+            if (cl.check o).isSome then hstepAux prog fuel c' ob i
+            else (c', { ob with trace := ob.trace ++ "r" })
+          | some (_, .ready _ _) => (c', { ob with trace := ob.trace ++ "l" })
+          | some (_, .start) => hstepAux prog fuel c' ob i
+          | _ => (c', ob)
+
+def hstep (progs : List (List COp)) (acc : Gau.Cfg Rec CErr × List Obs) (i : Nat) : Gau.Cfg Rec CErr × List Obs :=
+  match progs[i]?, acc.2[i]? with
+  | some p, some ob =>
+    let (c', ob') := hstepAux p 8 acc.1 ob i
+    (c', acc.2.set i ob')
+  | _, _ => acc
+
+def runConc (legacy : Bool) (init : Rec) (progs : List (List COp)) (sched : List Nat) : String :=
+  let mk := if legacy then legacyCall else opCall
+  let c0 : Gau.Cfg Rec CErr := ⟨init, 0, progs.map (fun p => Gau.Thread.ofCalls (p.map mk))⟩
+  let acc1 := sched.foldl (hstep progs) (c0, progs.map (fun _ => ({} : Obs)))
+  -- afterwards every thread, in index order, runs to completion
+  let acc2 := (List.range progs.length).foldl (fun acc i =>
+    (List.range (6 * ((progs[i]?.getD []).length + 1))).foldl (fun acc _ => hstep progs acc i) acc) acc1
+  let amp (xs : List String) : String := if xs.isEmpty then "-" else "&".intercalate xs
+  let showObs (ob : Obs) : String := amp ob.rets.reverse ++ "/" ++ amp ob.traces.reverse
+  encRec acc2.1.store ++ "#" ++ ";".intercalate (acc2.2.map showObs)
+
+def handleConc? (legacy : Bool) (init sched : String) (progs : List String) : Option String := do
+  let init : Rec := if init = "~" then none else some (decList init)
+  let progs ← progs.mapM (fun p => if p = "-" then some [] else (p.splitOn ";").mapM parseCOp?)
+  let sched ← (if sched = "-" then some [] else (sched.splitOn ",").mapM parseNat?)
+  pure (runConc legacy init progs sched)
+
 def handle? (toks : List String) : Option String :=
   match toks with
   | ["par.union", has, more] => some (encList (traitUnion (decList has) (decList more)))
@@ -41,6 +131,8 @@ def handle? (toks : List String) : Option String :=
   | "par.seq" :: ops => do
     let ops ← ops.mapM parseOp?
     pure (runSeq ops)
+  | "par.conc" :: init :: sched :: progs => handleConc? false init sched progs
+  | "par.conc.legacy" :: init :: sched :: progs => handleConc? true init sched progs
   | _ => none
 
 end ScVerif.C20.Parent
